@@ -171,18 +171,26 @@ func (v *Vue) evalObjectBinding(ctx VueContext, attrName, expr string) string {
 
 	// For other attributes, just concatenate all values
 	var values []string
-	for _, v := range pairs {
-		if v != "" {
-			values = append(values, v)
+	for _, p := range pairs {
+		if p.ok {
+			values = append(values, fmt.Sprintf("%s:%v", p.key, p.val))
 		}
 	}
 	return strings.Join(values, " ")
 }
 
+// objectPair is one key of an object literal with its evaluated value;
+// ok is false when the value expression could not be resolved.
+type objectPair struct {
+	key string
+	val any
+	ok  bool
+}
+
 // parseObjectPairs parses key:value pairs from an object literal.
-// Returns a slice of resolved values in order.
-func (v *Vue) parseObjectPairs(ctx VueContext, content string) []string {
-	var pairs []string
+// Returns the keys with their resolved values in order.
+func (v *Vue) parseObjectPairs(ctx VueContext, content string) []objectPair {
+	var pairs []objectPair
 
 	// Split by comma, but respect quoted strings
 	items := v.splitObjectItems(content)
@@ -210,13 +218,13 @@ func (v *Vue) parseObjectPairs(ctx VueContext, content string) []string {
 			var ok bool
 			val, ok = ctx.stack.Resolve(valueExpr)
 			if !ok {
-				pairs = append(pairs, "")
+				pairs = append(pairs, objectPair{key: key})
 				continue
 			}
 		}
 
 		// Store both key and resolved value
-		pairs = append(pairs, fmt.Sprintf("%s:%v", key, val))
+		pairs = append(pairs, objectPair{key: key, val: val, ok: true})
 	}
 
 	return pairs
@@ -262,27 +270,13 @@ func (v *Vue) splitObjectItems(content string) []string {
 
 // buildClassString builds a space-separated class string from key:value pairs.
 // Includes key only if the boolean value is truthy.
-func (v *Vue) buildClassString(pairs []string) string {
+func (v *Vue) buildClassString(pairs []objectPair) string {
 	var classes []string
 
 	for _, pair := range pairs {
-		pair = strings.TrimSpace(pair)
-		if pair == "" {
-			continue
-		}
-
-		colonIdx := strings.Index(pair, ":")
-		if colonIdx == -1 {
-			continue
-		}
-
-		key := strings.TrimSpace(pair[:colonIdx])
-		valueStr := strings.TrimSpace(pair[colonIdx+1:])
-
-		// Check if value is truthy using the actual type
-		val := parseValue(valueStr)
-		if helpers.IsTruthy(val) {
-			classes = append(classes, key)
+		// The same truthiness rule as v-if and bound attributes.
+		if pair.ok && helpers.IsTruthy(pair.val) {
+			classes = append(classes, pair.key)
 		}
 	}
 
@@ -292,22 +286,15 @@ func (v *Vue) buildClassString(pairs []string) string {
 // buildStyleString builds a CSS style string from key:value pairs.
 // Each pair becomes a property:value; entry.
 // camelCase keys are automatically converted to kebab-case (e.g., fontSize -> font-size).
-func (v *Vue) buildStyleString(pairs []string) string {
+func (v *Vue) buildStyleString(pairs []objectPair) string {
 	var styles []string
 
 	for _, pair := range pairs {
-		pair = strings.TrimSpace(pair)
-		if pair == "" {
+		if !pair.ok || pair.val == nil {
 			continue
 		}
-
-		colonIdx := strings.Index(pair, ":")
-		if colonIdx == -1 {
-			continue
-		}
-
-		key := strings.TrimSpace(pair[:colonIdx])
-		value := strings.TrimSpace(pair[colonIdx+1:])
+		key := pair.key
+		value := strings.TrimSpace(fmt.Sprint(pair.val))
 
 		// Remove quotes if present
 		value = strings.Trim(value, "\"'")
